@@ -114,13 +114,16 @@ structure AInvD (n : Net) (st : HState) (m : DMon) (lt : Option Nat) (now : Nat)
         Cov .att st m (n.epoch t)
   B : ∀ t, Cand lt now t → Cov .att st m (n.epoch t + 1) ∨ (st.fetchNext = true ∧ attShouldFetchNext n t = true)
 
-theorem attTick_ainv (n : Net) (hspe : 0 < n.spe) {st : HState} {m : DMon} {lt : Option Nat} {now : Nat} {ff : Bool}
-    {pend : Option Nat} (t0 clock : Nat) (r1 r2 : FetchRes) (h : AInvD n st m lt now ff pend) (hc : Cand lt now t0)
-    (hq : ∀ r, pend = some r → ¬ n.epoch r < n.epoch t0) :
+/-- one tick, from the facts it needs about the state before it: the current epoch is covered unless the tick
+    fetches first; the next epoch is covered unless this tick (re-)fetches it -/
+theorem attTick_core (n : Net) (hspe : 0 < n.spe) {st : HState} {m : DMon} {now : Nat} (t0 clock : Nat) (r1 r2 : FetchRes)
+    (hok : m.ok = true) (hi1 : st.fetchFirst = true → st.fetchCur = true)
+    (hi2 : st.indicesChanged = true → st.fetchCur = true)
+    (hdueLe : ∀ K A, m.due K = some A → K ≤ n.epoch now + 1) (hnow : now ≤ t0)
+    (hA : st.fetchFirst = true ∨ Cov .att st m (n.epoch t0))
+    (hB : Cov .att st m (n.epoch t0 + 1) ∨ (st.fetchNext = true ∧ attShouldFetchNext n t0 = true)) :
     AInvD n (attTick n st t0 clock r1 r2).1 (drun .att n m (attTick n st t0 clock r1 r2).2) (some t0) t0 false none := by
-  have hem := epoch_mono n hc.2
-  have hA := h.A t0 hc
-  have hB := h.B t0 hc
+  have hem := epoch_mono n hnow
   obtain ⟨store, ff0, fc, fn, ic⟩ := st
   have fin : ∀ (s : HState) (m2 : DMon), m2.ok = true → s.fetchFirst = false → s.indicesChanged = false →
       Cov .att s m2 (n.epoch t0) → Cov .att s m2 (n.epoch t0 + 1) →
@@ -133,7 +136,7 @@ theorem attTick_ainv (n : Net) (hspe : 0 < n.spe) {st : HState} {m : DMon} {lt :
       rcases hk K A hA' with h1 | h1 | h1
       · omega
       · omega
-      · have := h.dueLe K A h1; omega
+      · have := hdueLe K A h1; omega
     have hall : ∀ K, (n.epoch t0 < K ∨ (K = n.epoch t0 ∧ ¬ (t0 % n.spe == n.spe - 1) = true)) →
         Cov .att (attPost n s t0) m2 K := by
       intro K hK
@@ -176,11 +179,10 @@ theorem attTick_ainv (n : Net) (hspe : 0 < n.spe) {st : HState} {m : DMon} {lt :
   cases ff0
   · -- regular tick: execute, (reset on indices change,) fetch
     have hcov : Cov .att ⟨store, false, fc, fn, ic⟩ m (n.epoch t0) := by
-      rcases hA with h1 | ⟨r, hr, hlt⟩ | h1
+      rcases hA with h1 | h1
       · cases h1
-      · exact absurd hlt (hq r hr)
       · exact h1
-    have hx := dstep_exec .att n t0 clock (st := ⟨store, false, fc, fn, ic⟩) h.ok (fun _ => hcov)
+    have hx := dstep_exec .att n t0 clock (st := ⟨store, false, fc, fn, ic⟩) hok (fun _ => hcov)
     simp only [execOf] at hx
     let s0 : HState := if ic = true then ⟨store.reset (n.epoch t0), false, fc, fn, false⟩ else ⟨store, false, fc, fn, ic⟩
     have hs0 : s0 = if ic = true then ⟨store.reset (n.epoch t0), false, fc, fn, false⟩ else ⟨store, false, fc, fn, ic⟩ := rfl
@@ -199,7 +201,7 @@ theorem attTick_ainv (n : Net) (hspe : 0 < n.spe) {st : HState} {m : DMon} {lt :
       by_cases hic : ic = true
       · left
         rw [hs0, if_pos hic]
-        exact h.i2 hic
+        exact hi2 hic
       · right
         rw [hs0, if_neg hic]
         exact hcov.of_due_eq hx.2
@@ -219,7 +221,7 @@ theorem attTick_ainv (n : Net) (hspe : 0 < n.spe) {st : HState} {m : DMon} {lt :
       · exact Or.inr (Or.inl h1)
       · exact Or.inr (Or.inr (by rw [hx.2] at h1; exact h1))
   · -- fetch-first tick: fetch, execute
-    have hfc : fc = true := h.i1 rfl
+    have hfc : fc = true := hi1 rfl
     have pf := attPF_post n ⟨store, false, fc, fn, false⟩ m (n.epoch t0) t0 r1 r2
     have hfl := attPF_flags n ⟨store, false, fc, fn, false⟩ (n.epoch t0) t0 r1 r2
     have hc0 := pf.covp (Or.inl hfc)
@@ -229,13 +231,24 @@ theorem attTick_ainv (n : Net) (hspe : 0 < n.spe) {st : HState} {m : DMon} {lt :
       · exact Or.inl h1)
     have hx := dstep_exec .att n t0 clock (st := (attProcessFetching n ⟨store, false, fc, fn, false⟩ (n.epoch t0) t0 r1 r2).1)
       (m := drun .att n m (attProcessFetching n ⟨store, false, fc, fn, false⟩ (n.epoch t0) t0 r1 r2).2)
-      (by rw [pf.okeq]; exact h.ok) (fun _ => hc0)
+      (by rw [pf.okeq]; exact hok) (fun _ => hc0)
     simp only [execOf] at hx
     simp only [attTick, if_true, drun_append]
     apply fin _ _ hx.1 (by rw [hfl.1]) (by rw [hfl.2.1]) (hc0.of_due_eq hx.2) (hc1.of_due_eq hx.2)
     intro K A hA'
     rw [hx.2] at hA'
     exact pf.keys K A hA'
+
+theorem attTick_ainv (n : Net) (hspe : 0 < n.spe) {st : HState} {m : DMon} {lt : Option Nat} {now : Nat} {ff : Bool}
+    {pend : Option Nat} (t0 clock : Nat) (r1 r2 : FetchRes) (h : AInvD n st m lt now ff pend) (hc : Cand lt now t0)
+    (hq : ∀ r, pend = some r → ¬ n.epoch r < n.epoch t0) :
+    AInvD n (attTick n st t0 clock r1 r2).1 (drun .att n m (attTick n st t0 clock r1 r2).2) (some t0) t0 false none := by
+  apply attTick_core n hspe t0 clock r1 r2 h.ok h.i1 h.i2 h.dueLe hc.2
+  · rcases h.A t0 hc with h1 | ⟨r, hr, hlt⟩ | h1
+    · exact Or.inl h1
+    · exact absurd hlt (hq r hr)
+    · exact Or.inr h1
+  · exact h.B t0 hc
 
 /-- a notice that only changes flags (and possibly moves the clock forward) -/
 theorem att_keep_inv (n : Net) {st st' : HState} {m : DMon} {lt : Option Nat} {now r : Nat} {ff : Bool} {pend : Option Nat}
